@@ -14,6 +14,8 @@ Decided (context coverage and sibling agreement; structural):
  R4 K5  HPKE roles are mirrored: same Mode variant on both sides; Mode::Auth carries the sender's
         secret key on the sealing side and the sender's public key on the opening side; the
         recipient's public key seals and its secret key opens.
+ R5 K2  the short-input guards of the seal/open pairs are the strict `len < overhead()` (the empty
+        plaintext's ciphertext is exactly overhead() bytes).
 Not decided: ciphertext integrity and key secrecy themselves (AEAD/HPKE, trusted)."""
 from rules.core import pat
 from rules.core.facts import Operand, PASS_THROUGH
@@ -201,3 +203,30 @@ def run(F, rep, tier):
     rep.check(ok, "Context::to_bytes|field-coverage", "K6 field coverage",
               "every Context field (%s) is a separate tuple_hash item under tag %s" % (fields, items[0][0] if items else None),
               "Context::to_bytes does not cover every field: %s of %s" % (cov, fields), tb.site())
+    overhead_guard_rule(F, rep)
+
+
+def overhead_guard_rule(F, rep):
+    """R5: the empty plaintext round-trips: its ciphertext is exactly `overhead()` bytes, so the
+    'too short' guards of seal (on dst) and open (on the ciphertext) must be the strict `len < overhead()`,
+    the same on both sides of each pair."""
+    n = 0
+    guards = {}
+    for f in F.fns:
+        if f.derived or f.crate != "aranya_crypto" or "test_util" in f.path:
+            continue
+        for c in f.cmp_switches():
+            oa = f.origins(c["a"], through_calls="*")
+            ob = f.origins(c["b"], through_calls="*")
+            if "call:len" in (oa | ob) and "call:overhead" in (oa | ob):
+                n += 1
+                # normalise to (len OP overhead)
+                op = c["op"]
+                if "call:overhead" in oa and "call:len" in ob and "call:len" not in oa:
+                    op = {"Lt": "Gt", "Gt": "Lt", "Le": "Ge", "Ge": "Le"}.get(op, op)
+                guards[f.path] = (op, c)
+                rep.check(op == "Lt", "%s|short-input-guard-is-strict" % f.path.replace("aranya_crypto::", ""), "K2 polarity",
+                          "the guard is `len < overhead()`: an input of exactly overhead() bytes (empty plaintext) is accepted",
+                          "%s compares the length with overhead() using `%s` (normalised to len OP overhead): an input of exactly overhead() bytes - the encryption of the empty "
+                          "plaintext - is treated differently from the sealing side, so the empty plaintext does not round-trip" % (f.path, op), f.site())
+    rep.floor("length-vs-overhead guards in aranya-crypto", n, 4)
